@@ -9,6 +9,7 @@ import HtaVerif.Spec.C06
 import HtaVerif.Spec.C02
 import HtaVerif.Model.C01
 import HtaVerif.Model.C12
+import HtaVerif.Model.C17
 /-!
 `htadrv` — line protocol driver. One JSON request per input line, one JSON answer per
 output line. Imports only `Model/*` and `Spec/*` (core Lean), never a proof file.
@@ -212,6 +213,24 @@ def handle (j : Json) : Except String Json := do
     let n := C12.countStepSymbols ranks
     let out := (C12.load il n ranks).map fun l => Json.arr (l.map fun r => jInt r.idx).toArray
     return Json.mkObj [("n_step_symbols", jInt n), ("kept", Json.arr out.toArray)]
+  | "shorten" =>
+    let names ← (← getArr (← field j "names")).toList.mapM getStr
+    return Json.mkObj [("short", Json.arr (names.map fun n => Json.str (C17.shortenName n)).toArray)]
+  | "c17" =>
+    let c ← rows (← field j "control")
+    let t ← rows (← field j "test")
+    let ci ← intList (← field j "control_iterations")
+    let ti ← intList (← field j "test_iterations")
+    let short ← getBool (← field j "short")
+    let dev ← getStr (← field j "device")
+    let d := if dev == "CPU" then C17.Device.cpu else if dev == "GPU" then C17.Device.gpu else C17.Device.all
+    let out := (C17.run short d ci ti c t).map fun r =>
+      Json.arr #[Json.str r.name, jInt r.controlCount, jInt r.testCount, jInt r.controlDur, jInt r.testDur,
+        jInt r.diffCount, jInt r.diffDur,
+        Json.str (if C17.isAdded r then "added" else if C17.isDeleted r then "deleted"
+          else if C17.isIncreased r then "increased" else if C17.isDecreased r then "decreased"
+          else if C17.isUnchanged r then "unchanged" else "none")]
+    return Json.mkObj [("rows", Json.arr out.toArray)]
   | _ => throw s!"unknown op {op}"
 
 partial def loop (hin hout : IO.FS.Stream) : IO Unit := do
